@@ -128,7 +128,7 @@ Locate(B, Modes, Cwds, Argvs) ==
 
 AllModes == LY!Modes \ {"search_both"}
 Quick == Levels({{}}) \cup CrossRef({{}, {"a.A1.1"}}) \cup SelectW({"S1", "S2"}, {{}, {"A1", "A2", "B1"}}, {})
-         \cup Recur({FALSE}, {}) \cup FsWorlds(Bg5, {{}, {OneFile(FilesOf(Bg5))}, FilesOf(Bg5)}) \cup Fault(Bg3) \cup Sources(Bg3) \cup BuildTags(Bg3)
+         \cup Recur({FALSE}, {}) \cup FsWorlds(Bg3, {{}, {OneFile(FilesOf(Bg3))}, FilesOf(Bg3)}) \cup Fault(Bg3) \cup Sources(Bg3) \cup BuildTags(Bg3)
          \cup Commands(Bg3) \cup Locate(Bg3, AllModes, {<<"w", "a">>}, {"run"})
          \cup Locate(Bg3, {"search_yml", "flag_rel", "env_abs", "flagenv_abs"}, {<<"w">>}, {"showconfig"})
 MCTiny     == {Run("tiny", "S1", Bg5)}
